@@ -81,6 +81,27 @@ static void OpRt(const char *impl, const std::string &s, long esplit, long dspli
     os << ",\"ub\":" << U::B(U::TakeReports() > 0) << "}" << std::endl;
 }
 
+/// rtall <impl> <hex prefix>: the 256 strings prefix+b, b = 0..255, each encoded (streaming and one-shot) and decoded back;
+/// one output line: es[b] = encoded text, outs[b] = decoded bytes, acc[b] = decoder accepted, plus two summary flags
+static void OpRtAll(const char *impl, const std::string &prefix, std::ostream &os)
+{
+    std::string es, outs, acc;
+    bool promise = true, raweq = true;
+    for (int b = 0; b < 256; ++b) {
+        const std::string s = prefix + char(b);
+        const EncRes e = DoEnc(s, -1);
+        const DecRes d = DoDec(e.e, -1);
+        promise = promise && e.n1 <= BASE64_ENCODE_LENGTH(e.k1) && e.nf <= BASE64_ENCODE_FINAL_LENGTH && d.n1 <= BASE64_DECODE_LENGTH(d.k1);
+        raweq = raweq && e.raw == e.e;
+        if (b) { es += ','; outs += ','; acc += ','; }
+        es += U::Bytes(e.e);
+        outs += U::Bytes(d.out);
+        acc += U::B(d.upd && d.fin);
+    }
+    os << "{\"op\":\"rtall\",\"impl\":\"" << impl << "\",\"pre\":" << U::Bytes(prefix) << ",\"es\":[" << es << "],\"outs\":[" << outs << "],\"acc\":[" << acc
+       << "],\"promise\":" << U::B(promise) << ",\"raweq\":" << U::B(raweq) << ",\"ub\":" << U::B(U::TakeReports() > 0) << "}" << std::endl;
+}
+
 /// dec <impl> <hex e> <split>
 static void OpDec(const char *impl, const std::string &e, long split, std::ostream &os)
 {
